@@ -23,7 +23,7 @@ BUDGET = {
     "quick": {"cases": 8000, "seconds": 90, "shards": 8},
     "thorough": {"cases": 120000, "seconds": 900, "shards": 16},
 }
-REQUIRED_OBS = ["sup_resub_checked", "sup_predict_train_checked", "knn_resub_checked", "knn_tied_or_duplicate_cases"]
+REQUIRED_OBS = ["sup_zero_row_cases", "sup_resub_checked", "sup_predict_train_checked", "knn_resub_checked", "knn_tied_or_duplicate_cases"]
 MIN_NONTRIVIAL = 100
 ZERO_SELF = [m for m in gen.SYMMETRIC_DISSIMILARITIES]
 
@@ -33,6 +33,10 @@ def generate(rng, tier, idx):
         metrics = ZERO_SELF if idx % 4 else gen.SAFE_METRICS
         c = supcase.gen_case(rng, tier, metrics=metrics, force_tie_free=True, nq=1)
         c["part"] = "sup"
+        from ..metrics_table import T as _T
+        if not c.get("pre") and _T[c["metric"]][3] and rng.random() < 0.25:
+            c["X"][int(rng.integers(0, len(c["X"])))] = [0.0] * len(c["X"][0])      # the EPSILON shift keeps these metrics defined at 0
+            c["zero_row"] = True
         return c
     c = knncase.gen_knn_case(rng, tier, model="knn", metrics=gen.SAFE_METRICS if idx % 4 == 1 else ZERO_SELF)
     c["part"] = "knn"
@@ -62,17 +66,23 @@ def _sup(case, res):
         return res.reject("not-tie-free")
     n = len(W)
     # self-distances as the model evaluates them must lie below every off-diagonal weight
-    if o.model.pre_computed_distance:
-        diag = np.array([o.model.pre_distances[nd.idx][nd.idx] for nd in o.model.subgraph.nodes])
-    else:
-        fn = o.model.distance_fn
-        diag = np.array([float(fn(np.array(nd.features, dtype=float), np.array(nd.features, dtype=float))) for nd in o.model.subgraph.nodes])
+    try:
+        if o.model.pre_computed_distance:
+            diag = np.array([o.model.pre_distances[nd.idx][nd.idx] for nd in o.model.subgraph.nodes])
+        else:
+            fn = o.model.distance_fn
+            diag = np.array([float(fn(np.array(nd.features, dtype=float), np.array(nd.features, dtype=float))) for nd in o.model.subgraph.nodes])
+    except Exception:  # noqa: BLE001 - the metric raised on a self-pair: the model's own predict(X_train) below will show it
+        diag = None
+        res.see("self_distance_raised")
     offmin = W[np.triu_indices(n, 1)].min()
-    if not (np.all(np.isfinite(diag)) and np.all(diag >= 0) and diag.max() < offmin):
+    if diag is not None and not (np.all(np.isfinite(diag)) and np.all(diag >= 0) and diag.max() < offmin):
         return res.reject("self-distance-not-below-off-diagonal")
     nodes = o.model.subgraph.nodes
     Y = [int(y) for y in case["Y"]]
     res.see("sup_resub_checked")
+    if case.get("zero_row"):
+        res.see("sup_zero_row_cases")
     for i in range(n):
         if nodes[i].predicted_label != Y[i]:
             res.violate("resubstitution", "C04/train-label-wrong/supervised",
